@@ -510,3 +510,59 @@ func VH_C12_CreateTopicsRefresh(n int) {
 	}
 	vhReach("c12-createtopics-refresh")
 }
+
+// C12-H8: the pool's background refresh (connPool.discover) survives a metadata request that is not answered within
+// MetadataTTL: the cached layout is kept, the loop goes on, and the next refresh (a leadership move) is applied so
+// that the next request is routed to the new leader. The harness plays the control connection.
+func VH_C12_DiscoverSurvivesTimeout() {
+	vp := vhNewPool(2, 1)
+	p := vp.p
+	p.metadataTTL = 2 * time.Second
+	ctx, cancel := context.WithCancel(context.Background())
+	go p.discover(ctx, p.wake)
+	vhSettle()
+	vhAssert(len(vp.ctrl) == 1, "refresh-request-sent-on-the-control-connection")
+	if len(vp.ctrl) != 1 {
+		cancel()
+		return
+	}
+	<-vp.ctrl // the broker never answers this one
+	// an idle control connection for the next round
+	p.ctrl.idleConns = []*conn{{reqs: vp.ctrl, group: p.ctrl, network: "tcp", address: "bootstrap:9092"}}
+	for i := 0; i < 4; i++ {
+		time.Sleep(time.Second) // MetadataTTL passes
+	}
+	vhSettle()
+	vhAssert(!vhCoroDone(1), "refresh-loop-survives-an-unanswered-request")
+	if len(vp.ctrl) == 0 {
+		// the loop waits for its timer or for a forced refresh: force one
+		select {
+		case p.wake <- make(event):
+		case <-time.After(5 * time.Second):
+		}
+		vhSettle()
+	}
+	vhAssert(len(vp.ctrl) == 1, "refresh-loop-goes-on-after-an-unanswered-request")
+	if len(vp.ctrl) != 1 {
+		cancel()
+		return
+	}
+	r := <-vp.ctrl
+	newLeader := vp.ids[0]
+	if vp.leaders[0] == vp.ids[0] {
+		newLeader = vp.ids[1]
+	}
+	md := &meta.Response{ControllerID: vp.ctrlID}
+	for i, id := range vp.ids {
+		md.Brokers = append(md.Brokers, meta.ResponseBroker{NodeID: id, Host: "h", Port: 9092 + int32(i)})
+	}
+	md.Topics = []meta.ResponseTopic{{Name: "t", Partitions: []meta.ResponsePartition{{PartitionIndex: 0, LeaderID: newLeader}}}}
+	r.res.resolve(md)
+	vhSettle()
+	req := &pproduce.Request{Topics: []pproduce.RequestTopic{{Topic: "t", Partitions: []pproduce.RequestPartition{{Partition: 0}}}}}
+	p.sendRequest(context.Background(), req, p.grabState())
+	vp.landed(newLeader, req, "after-a-timed-out-refresh-and-a-leader-move")
+	cancel()
+	vhSettle()
+	vhReach("c12-discover-survives-timeout")
+}
